@@ -280,7 +280,262 @@ def c25(idx: Index, rep: Report, tier: str) -> None:
     rep.require_min(rule, "queue_insertions", 2)
 
 
-EXTRA3 = {"C17": c17, "C25": c25, "C20": c20, "C27": c27, "C28": c28}
+# ------------------------------------------------------------------------------------ C31
+def c31(idx: Index, rep: Report, tier: str) -> None:
+    # (a) the oversubscription search submits every candidate subset to the underlying planner
+    rule = "C31.4 T2 every-candidate-is-submitted"
+    g = idx.func("engines.oversubscription_planner.OversubscriptionPlanner._solve")
+    cfg = cfg_of(g)
+    solves = {nd for nd, c in cfg_nodes_with_call(cfg, "solve")}
+    if not solves:
+        raise AnalysisError(f"{rule}: OversubscriptionPlanner._solve no longer calls the underlying planner")
+    n = 0
+    for l in cfg.nodes:
+        if l.kind != "for" or not any(nd.ast is not None and any(x is nd.ast for s in l.owner.body for x in ast.walk(s)) for nd in solves):
+            continue
+        n += 1
+        first = [s for s in cfg.g.successors(l) if cfg.g[l][s].get("label") is True or (isinstance(cfg.g[l][s].get("label"), tuple) and True in cfg.g[l][s].get("label"))]
+        w = None
+        for s in first:
+            if s not in solves:
+                w = w or cfg.path_avoiding(s, l, solves)
+        rep.check(w is None, rule, "no goal subset is skipped before it was given to the underlying planner", g.loc(l.owner), construct=f"for {norm(l.owner.target)} in {norm(l.owner.iter)}: " + ("every iteration solves" if w is None else "an iteration can continue without solving"), detail="" if w is None else "a candidate subset is discarded on the strength of an earlier answer; each candidate is solved with the other soft goals *negated*, so the failure of one candidate says nothing about another: the heaviest reachable subset can be skipped and a lighter one reported as SOLVED_OPTIMALLY", function=g.qualname, path=path_text(w) if w else None)
+    rep.count("candidate_loops", n)
+    rep.require_min(rule, "candidate_loops", 1)
+
+    # (b) the two variants the interpreted-functions remover builds for an expression (values known / unknown) are
+    # complementary: the unknown variant requires exactly the negation of what the known variant requires
+    rule_b = "C31.5 known-unknown-variants-complementary"
+    f = idx.func("engines.compilers.interpreted_functions_remover.InterpretedFunctionsRemover._expand_action")
+    nb = 0
+    for i in walk_no_nested(f.node):
+        if not (isinstance(i, ast.If) and isinstance(i.test, ast.Name) and i.orelse):
+            continue
+        def cond_appends(stmts):
+            out = []
+            for st in stmts:
+                for c in ast.walk(st):
+                    if isinstance(c, ast.Call) and call_name(c) == "append" and c.args and isinstance(c.args[0], ast.Tuple) and len(c.args[0].elts) == 2:
+                        out.append(c.args[0].elts[1])
+            return out
+        pos = [e for e in cond_appends(i.body) if isinstance(e, ast.Call) and call_name(e) == "And" and len(e.args) == 1 and isinstance(e.args[0], ast.Name)]
+        if not pos:
+            continue
+        L = pos[0].args[0].id
+        neg = [e for e in cond_appends(i.orelse) if any(isinstance(x, ast.Name) and x.id == L for x in ast.walk(e))]
+        loops_over_L = [l for st in i.orelse for l in ast.walk(st) if isinstance(l, ast.For) and norm(l.iter) == L and cond_appends(l.body)]
+        nb += 1
+        want = f"Not({norm(pos[0]).split('.')[-1]})"
+        ok = bool(neg) and not loops_over_L and all(isinstance(e, ast.Call) and call_name(e) == "Not" and len(e.args) == 1 and norm(e.args[0]) == norm(pos[0]) for e in neg)
+        rep.check(ok, rule_b, f"the `not {norm(i.test)}` variant requires the negation of what the `{norm(i.test)}` variant requires", f.loc(i), construct=f"{norm(i.test)}: {norm(pos[0])} / else: {'; '.join(norm(e) for e in neg) if neg else ('one condition per element of ' + L if loops_over_L else 'nothing')}", detail="" if ok else f"the two variants do not cover every state: with two interpreted functions in one expression, a state in which one is known and the other is not satisfies neither And({L}) nor the per-element negations, the action disappears from the compiled problem and the meta-engine reports a solvable problem as unsolvable", function=f.qualname)
+    rep.count("variant_splits", nb)
+    rep.require_min(rule_b, "variant_splits", 1)
+
+
+# ------------------------------------------------------------------------------------ C33
+class _SetInterp:
+    """Concrete interpreter for the fragment the upgrade functions are written in: sets of feature names, membership
+    tests, copy / update / add / discard / remove / difference_update, if / elif / else, return. Finite: it is run on
+    every subset of the feature names the function mentions."""
+
+    class Unsupported(Exception):
+        pass
+
+    def __init__(self, fn: ast.FunctionDef):
+        self.fn = fn
+
+    def run(self, arg: frozenset) -> frozenset:
+        env = {self.fn.args.args[0].arg: set(arg)}
+        r = self._block(self.fn.body, env)
+        if r is None:
+            raise self.Unsupported("no return")
+        return frozenset(r)
+
+    def _block(self, stmts, env):
+        for s in stmts:
+            if isinstance(s, ast.Expr) and isinstance(s.value, ast.Constant):
+                continue
+            if isinstance(s, ast.Return):
+                return self._expr(s.value, env)
+            if isinstance(s, (ast.Assign, ast.AnnAssign)):
+                tg = s.targets[0] if isinstance(s, ast.Assign) else s.target
+                if not isinstance(tg, ast.Name):
+                    raise self.Unsupported(norm(s))
+                env[tg.id] = self._expr(s.value, env)
+            elif isinstance(s, ast.AugAssign) and isinstance(s.target, ast.Name) and isinstance(s.op, (ast.BitOr, ast.Sub, ast.BitAnd)):
+                a, b = env[s.target.id], self._expr(s.value, env)
+                env[s.target.id] = a | b if isinstance(s.op, ast.BitOr) else (a - b if isinstance(s.op, ast.Sub) else a & b)
+            elif isinstance(s, ast.If):
+                r = self._block(s.body if self._truth(s.test, env) else s.orelse, env)
+                if r is not None:
+                    return r
+            elif isinstance(s, ast.Expr):
+                self._expr(s.value, env)
+            elif isinstance(s, (ast.Pass, ast.Assert)):
+                continue
+            else:
+                raise self.Unsupported(type(s).__name__)
+        return None
+
+    def _truth(self, t, env) -> bool:
+        if isinstance(t, ast.BoolOp):
+            vals = [self._truth(v, env) for v in t.values]
+            return all(vals) if isinstance(t.op, ast.And) else any(vals)
+        if isinstance(t, ast.UnaryOp) and isinstance(t.op, ast.Not):
+            return not self._truth(t.operand, env)
+        if isinstance(t, ast.Compare) and len(t.ops) == 1 and isinstance(t.ops[0], (ast.In, ast.NotIn)):
+            l, r = self._expr(t.left, env), self._expr(t.comparators[0], env)
+            return (l in r) == isinstance(t.ops[0], ast.In)
+        v = self._expr(t, env)
+        return bool(v)
+
+    def _expr(self, e, env):
+        if isinstance(e, ast.Constant):
+            return e.value
+        if isinstance(e, ast.Name):
+            if e.id in env:
+                return env[e.id]
+            raise self.Unsupported("name " + e.id)
+        if isinstance(e, (ast.Set, ast.List, ast.Tuple)):
+            return {self._expr(x, env) for x in e.elts}
+        if isinstance(e, ast.BinOp) and isinstance(e.op, (ast.BitOr, ast.Sub, ast.BitAnd)):
+            a, b = self._expr(e.left, env), self._expr(e.right, env)
+            return a | b if isinstance(e.op, ast.BitOr) else (a - b if isinstance(e.op, ast.Sub) else a & b)
+        if isinstance(e, ast.Call) and isinstance(e.func, ast.Name) and e.func.id in ("set", "frozenset") and len(e.args) <= 1:
+            return set(self._expr(e.args[0], env)) if e.args else set()
+        if isinstance(e, ast.Call) and isinstance(e.func, ast.Attribute):
+            base = self._expr(e.func.value, env)
+            args = [self._expr(a, env) for a in e.args]
+            m = e.func.attr
+            if not isinstance(base, set):
+                raise self.Unsupported(norm(e)[:50])
+            if m == "copy":
+                return set(base)
+            if m in ("update", "difference_update", "intersection_update"):
+                for a in args:
+                    if m == "update":
+                        base |= set(a)
+                    elif m == "difference_update":
+                        base -= set(a)
+                    else:
+                        base &= set(a)
+                return None
+            if m == "add":
+                base.add(args[0])
+                return None
+            if m in ("discard", "remove"):
+                base.discard(args[0])
+                return None
+            if m in ("union", "difference", "intersection"):
+                out = set(base)
+                for a in args:
+                    out = out | set(a) if m == "union" else (out - set(a) if m == "difference" else out & set(a))
+                return out
+        raise self.Unsupported(norm(e)[:50])
+
+
+def c33(idx: Index, rep: Report, tier: str) -> None:
+    import itertools
+
+    # (a) upgrading preserves <=: every upgrade function is monotone on feature sets
+    rule = "C33.4 T15 upgrade-monotone"
+    vm = idx.module("model.problem_kind_versioning")
+    ufm = vm.assigns.get("upgrade_functions_map")
+    if not isinstance(ufm, ast.Dict):
+        raise AnalysisError(f"{rule}: upgrade_functions_map is not a dict display")
+    n = 0
+    for v in ufm.values:
+        name = norm(v)
+        uf = vm.functions.get(name)
+        if uf is None:
+            rep.inconclusive(rule, f"{name}: not a function of the module", "unified_planning/model/problem_kind_versioning.py:1")
+            continue
+        n += 1
+        tested = sorted({x.left.value for x in ast.walk(uf.node) if isinstance(x, ast.Compare) and isinstance(x.left, ast.Constant) and isinstance(x.left.value, str) and isinstance(x.ops[0], (ast.In, ast.NotIn))})
+        if len(tested) > 12:
+            rep.inconclusive(rule, f"{name}: tests {len(tested)} features, too many to enumerate", uf.loc(), function=uf.qualname)
+            continue
+        interp = _SetInterp(uf.node)
+        subsets = [frozenset(c) for k in range(len(tested) + 1) for c in itertools.combinations(tested, k)]
+        try:
+            image = {a: interp.run(a) for a in subsets}
+        except _SetInterp.Unsupported as u:
+            rep.inconclusive(rule, f"{name}: not interpretable ({u})", uf.loc(), function=uf.qualname)
+            continue
+        witness = None
+        for a in subsets:
+            for b in subsets:
+                if a < b and not image[a] <= image[b]:
+                    witness = witness or (a, b)
+        rep.check(witness is None, rule, f"{name} is monotone: A <= B implies {name}(A) <= {name}(B)", uf.loc(), construct=f"{name}: {len(subsets)} feature sets over {tested}" if witness is None else f"{name}({sorted(witness[0])}) = {sorted(image[witness[0]])} is not contained in {name}({sorted(witness[1])}) = {sorted(image[witness[1]])}", detail="" if witness is None else "two kinds ordered by <= in the old version are no longer ordered after the upgrade: comparing either of them with a newer kind gives answers that contradict their own order (transitivity across versions is lost)", function=uf.qualname)
+    rep.count("upgrade_functions", n)
+    rep.require_min(rule, "upgrade_functions", 2)
+
+    # (b) the order, the equality and the hash decide on the same data: the features valid in the version
+    from ..dataflow import reaching_defs
+
+    rule_b = "C33.5 decisions-read-valid-features-only"
+    pk = idx.cls("model.problem_kind.ProblemKind")
+    nb = 0
+    for mname in ("__le__", "__eq__", "__hash__"):
+        m = pk.methods.get(mname)
+        if m is None:
+            raise AnalysisError(f"{rule_b}: ProblemKind.{mname} vanished")
+        cfg = cfg_of(m)
+        rd = reaching_defs(cfg)
+        raw_defs = set()
+        for nd in cfg.nodes:
+            if nd.kind == "stmt" and isinstance(nd.ast, ast.Assign):
+                v = nd.ast.value
+                if (isinstance(v, ast.Call) and call_name(v) == "equalize_versions") or (isinstance(v, ast.Attribute) and v.attr in ("_features", "features")):
+                    raw_defs.add(nd)
+
+        def raw_reads(expr: ast.AST, at) -> List[str]:
+            """names / attributes holding unfiltered features that `expr` reads outside a filtering call"""
+            out: List[str] = []
+
+            def visit(e, filtered):
+                if isinstance(e, ast.Call) and isinstance(e.func, ast.Attribute) and e.func.attr in ("intersection", "__and__"):
+                    visit(e.func.value, True)
+                    for a in e.args:
+                        visit(a, True)
+                    return
+                if isinstance(e, ast.BinOp) and isinstance(e.op, ast.BitAnd):
+                    visit(e.left, True)
+                    visit(e.right, True)
+                    return
+                if isinstance(e, ast.Attribute) and e.attr in ("_features", "features") and not filtered:
+                    out.append(norm(e))
+                    return
+                if isinstance(e, ast.Name) and not filtered and any(d in raw_defs for d in rd[at].get(e.id, ())):
+                    # the third component of equalize_versions is the version, not a feature set
+                    for d in rd[at].get(e.id, ()):
+                        if d in raw_defs and isinstance(d.ast.targets[0], ast.Tuple):
+                            names = [norm(x) for x in d.ast.targets[0].elts]
+                            if names.index(e.id) >= 2:
+                                return
+                    out.append(e.id)
+                    return
+                for ch in ast.iter_child_nodes(e):
+                    visit(ch, filtered)
+
+            visit(expr, False)
+            return out
+
+        for nd in cfg.nodes:
+            if nd.ast is None or nd.kind not in ("test", "return"):
+                continue
+            expr = nd.ast.value if nd.kind == "return" else nd.ast
+            if expr is None:
+                continue
+            nb += 1
+            bad = raw_reads(expr, nd)
+            rep.check(not bad, rule_b, f"{mname}: `{norm(expr)[:50]}` depends on the valid features only", m.loc(nd.ast), construct=f"{norm(expr)[:80]}" + ("" if not bad else f" reads unfiltered {sorted(set(bad))}"), detail="" if not bad else "a decision of the order / equality / hash looks at the raw feature set, deprecated features included, while == ignores them: two equal kinds are then ordered differently (a == b, b <= a, not a <= b)", function=m.qualname)
+    rep.count("decisions", nb)
+    rep.require_min(rule_b, "decisions", 5)
+
+
+EXTRA3 = {"C33": c33, "C31": c31, "C17": c17, "C25": c25, "C20": c20, "C27": c27, "C28": c28}
 
 
 def run_extra3(prop: str, idx: Index, rep: Report, tier: str) -> None:
